@@ -33,7 +33,7 @@ def make_lit(kind, k):
     if kind == "str":
         return ["lit", ["a", "b c", "x1", ""][k], XSD_STRING, ""]
     if kind == "word":
-        return ["lit", ["alpha", "beta gamma", "Delta", "x"][k], XSD_STRING, ""]
+        return ["lit", ["alpha", "beta gamma", "Delta", ""][k], XSD_STRING, ""]
     if kind == "lang":
         return ["lit", ["hola", "b c", "x", "y z"][k], LANGSTRING, "en"]
     if kind == "lang2":
@@ -252,3 +252,27 @@ def harmless_extras(draw):
     elif k == 3:
         cfg["infer_numeric_types_for_untyped_literals"] = False
     return cfg
+
+
+def scale_graph(n, missing=1, double=1):
+    """one class with n instances; property p0 (string) on all but `missing` of them; property p1 (integer) on all, with two
+    values on `double` of them; a link p2 from every instance to one of two untyped IRIs.  Used for ratios close to 100 % / 0 %."""
+    C = "http://ex.org/C0"
+    tr = []
+    for i in range(n):
+        node = ["iri", "http://ex.org/s%d" % i]
+        tr.append([node, RDF_TYPE, ["iri", C]])
+        if i >= missing:
+            tr.append([node, "http://ex.org/p0", ["lit", "v", XSD_STRING, ""]])
+        tr.append([node, "http://ex.org/p1", ["lit", "1", XSD + "integer", ""]])
+        if i < double:
+            tr.append([node, "http://ex.org/p1", ["lit", "2", XSD + "integer", ""]])
+        tr.append([node, "http://ex.org/p2", ["iri", "http://ex.org/u%d" % (i % 2)]])      # untyped targets: no reference chains
+    return {"triples": tr, "classes": [C], "inst_prop": RDF_TYPE}
+
+
+def expand(g):
+    """graphs may be stored compactly in a case ({"scale": [n, missing, double]})"""
+    if "scale" in g:
+        return scale_graph(*g["scale"])
+    return g
